@@ -433,6 +433,16 @@ def realize(value):
             return bytearray(bytes.fromhex(value.name.split(":", 1)[1]))
         if value.name.startswith("memoryview:"):
             return memoryview(bytearray(bytes.fromhex(value.name.split(":", 1)[1])))
+        # values of a proper SUBCLASS of int / float / str (an enum member, a float with units, a tagged string)
+        if value.name.startswith("intenum:"):
+            import enum
+            return enum.IntEnum("Code", {"MEMBER": int(value.name.split(":", 1)[1])}).MEMBER
+        if value.name.startswith("intsub:"):
+            return type("Count", (int,), {})(int(value.name.split(":", 1)[1]))
+        if value.name.startswith("floatsub:"):
+            return type("Metres", (float,), {})(float(value.name.split(":", 1)[1]))
+        if value.name.startswith("strsub:"):
+            return type("Tagged", (str,), {})(value.name.split(":", 1)[1])
         return object()
     if isinstance(value, str):
         return subst(value)
